@@ -192,7 +192,7 @@ class SimTransport(asyncio.Transport):
         pass
 
     def get_write_buffer_size(self):
-        return sum(len(b) for b in self._buffer)
+        return sum(len(b[0]) for b in self._buffer)
 
     def get_write_buffer_limits(self):
         return (0, 0)
@@ -216,14 +216,15 @@ class SimTransport(asyncio.Transport):
         return True
 
     def write(self, data):
-        data = bytes(data)
+        orig = data          # a selector transport keeps what it cannot send at once BY
+        data = bytes(data)   # REFERENCE (memoryview / bytearray are not copied)
         if self._conn_lost:
             self._conn_lost += 1
             self.conn.net.log.add("NET.write_ignored", conn=self.conn.id, data=data)
             return
         if not data:
             return
-        self.conn.on_client_write(data)
+        self.conn.on_client_write(data, orig)
 
     def close(self):
         if self._closing:
@@ -302,8 +303,14 @@ class SimTransport(asyncio.Transport):
             return
         self._stalled = False
         buf, self._buffer = self._buffer, []
-        for b in buf:
-            self.conn.console_receive(b)
+        for copy, orig, n in buf:
+            actual = bytes(orig)
+            if actual != copy:
+                # the application changed the buffer it had handed to write(): what goes out
+                # now is not what was written
+                self.conn.net.log.add("NET.write_mutated", conn=self.conn.id, n=n,
+                                      written=copy, sent=actual)
+            self.conn.console_receive(actual)
         if self._proto_paused and not self._conn_lost:
             self._proto_paused = False
             self._protocol.resume_writing()
@@ -325,7 +332,7 @@ class Conn:
         self.closed_at = None
         self.on_data = None
 
-    def on_client_write(self, data):
+    def on_client_write(self, data, orig=None):
         self.nwrites += 1
         tr = self.transport
         fault = (self.fail_write_at is not None and self.nwrites >= self.fail_write_at) \
@@ -343,7 +350,7 @@ class Conn:
             tr._force_close(exc)
             return
         if tr._stalled:
-            tr._buffer.append(data)
+            tr._buffer.append((data, orig if orig is not None else data, self.nwrites))
             if not tr._proto_paused:
                 tr._proto_paused = True
                 tr._protocol.pause_writing()
